@@ -72,7 +72,8 @@ MemoOK(e) ==
          /\ e.kind = KindShown(MemoKind(e.b))
          /\ e.kind = "text" => e.txt = s
          /\ e.kind # "err" => e.enc = s                                 \* Memo::from_bytes(b).encode() has the same bytes
-         /\ e.b64 = B64Enc(s)                                           \* URI form: unpadded base64url of the stripped bytes
+         \* URI form: unpadded base64url text that decodes to the memo bytes (zero padding may or may not be spelled out)
+         /\ MemoClass(e.b64) = "ok" /\ StripZ(B64Dec(e.b64)) = s
          /\ e.b64back = "eq"
 
 Allowed(e) == CASE e.ev = "uri" -> UriOK(e)
@@ -98,7 +99,7 @@ Expected(e, n) ==
       [] e.ev = "tnew" -> <<IF e.n > 9999 \/ e.dup THEN "err" ELSE "ok">>
       [] e.ev = "fidx" -> <<IF NumLeq(e.k, <<9, 9, 9, 9>>) THEN "ok" ELSE "err">>
       [] e.ev = "memo" -> IF Len(e.b) > 512 THEN <<"refused (longer than 512 bytes)">>
-                          ELSE <<"kind", KindShown(MemoKind(e.b)), "slice", ToJson(StripZ(e.b)), "base64url", ToJson(B64Enc(StripZ(e.b)))>>
+                          ELSE <<"kind", KindShown(MemoKind(e.b)), "slice", ToJson(StripZ(e.b)), "base64url (canonical)", ToJson(B64Enc(StripZ(e.b)))>>
       [] e.ev = "any" -> <<"ok or err, never a panic">>
       [] OTHER -> <<"unknown event">>
 
